@@ -42,7 +42,18 @@ class C03(framework.PropertyCheck):
                     pos = [rng.randrange(l) for l in lens]
                     pairs.append([pos, rng.randint(-(nmax + 1), nmax + 1)])
             comp = [[[rng.randrange(l) for l in lens], rng.randint(-3, 3), rng.randint(-3, 3)] for _ in range(3)]
-            yield {'tids': tids, 'lens': lens, 'seeds': [rng.randrange(1 << 30) for _ in tids], 'e': e, 'pairs': pairs, 'comp': comp}
+            case = {'tids': tids, 'lens': lens, 'seeds': [rng.randrange(1 << 30) for _ in tids], 'e': e, 'pairs': pairs, 'comp': comp}
+            if ntr == 1 and c % 5 == 3 and lens[0] >= 3:
+                # the trace was trimmed after loading: positions behind the new end are outside the trace
+                case['trim'] = rng.randint(1, lens[0] - 2)
+                full = lens[0]
+                case['lens'] = [case['trim'] + 1]
+                case['full'] = full
+                case['pairs'] = [[[min(p[0], case['trim'])], k] for p, k in pairs]
+                case['comp'] = [[[min(p[0], case['trim'])], j, k] for p, j, k in comp]
+            if ntr == 1 and c % 5 == 1:
+                case['shadow'] = True       # a local variable carries the name of a signal: under @ it is still the variable
+            yield case
 
     def _idx_syms(self, case):
         if len(case['tids']) == 1:
@@ -57,8 +68,10 @@ class C03(framework.PropertyCheck):
     def _plan(self, case):
         steps = []
         for tid, n, s in zip(case['tids'], case['lens'], case['seeds']):
-            vf, _den = gen_trace.simple_vcd(random.Random(s), n, sigs=gen_expr.SIGS)
+            vf, _den = gen_trace.simple_vcd(random.Random(s), case.get('full', n), sigs=gen_expr.SIGS)
             steps.append(('loadvcd', tid, gen_trace.render(vf)))
+        if case.get('trim') is not None:
+            steps.append(('eval', 'eorg', f"(trim-trace 't0 {case['trim']})"))
         single = len(case['tids']) == 1
         for d in (gen_expr.PRELUDE_SINGLE if single else gen_expr.prelude_multi(case['tids'])):
             steps.append(('eval', 'eorg', d))
@@ -71,6 +84,9 @@ class C03(framework.PropertyCheck):
             plan.append(('reval', (pos, k), len(steps)))
             steps.append(('eval', 'eorg', f'(list {idx} (reval {e} {k}) {idx})'))
             inr = all(0 <= p + k < l for p, l in zip(pos, case['lens']))
+            if case.get('shadow'):
+                plan.append(('shadow', (pos, k), len(steps)))
+                steps.append(('eval', 'eorg', f'(let ([top.cnt 4242]) (list (reval top.cnt {k}) top.cnt (reval (+ top.cnt 1) {k})))'))
             if inr:
                 steps.append(('eval', 'eorg', f'(step {k})'))
                 plan.append(('direct', (pos, k), len(steps)))
@@ -121,6 +137,12 @@ class C03(framework.PropertyCheck):
                 if not inr and r != ('B', False):
                     return {'what': 'out-of-range relative evaluation did not yield #f', 'e': case['e'], 'pos': pos, 'k': k, 'got': r}
                 last_reval = (data, r)
+            elif kind == 'shadow':
+                pos, k = data
+                inr = all(0 <= p + k < l for p, l in zip(pos, case['lens']))
+                want = (('I', 4242), ('I', 4242), ('I', 4243)) if inr else (('B', False), ('I', 4242), ('B', False))
+                if vals != want:
+                    return {'what': 'a local variable named like a signal is not read as the variable under @', 'pos': pos, 'k': k, 'got': vals, 'want': want}
             elif kind == 'direct':
                 if last_reval is None or last_reval[0] != data:
                     continue
